@@ -31,9 +31,12 @@ type ExportNode struct {
 // depth-first post-order (LRN), this order must be preserved when importing in order to recreate
 // the same tree structure.
 type Exporter struct {
-	tree   *ImmutableTree
-	ch     chan *ExportNode
-	cancel context.CancelFunc
+	tree *ImmutableTree
+	// version is the version pinned by newExporter; Close releases exactly this one (the tree may
+	// be the working tree of a MutableTree, whose version field moves with the next SaveVersion)
+	version int64
+	ch      chan *ExportNode
+	cancel  context.CancelFunc
 	// err is the traversal error, if any. It is written by the export goroutine
 	// before ch is closed and only read after ch has been observed closed.
 	err error
@@ -50,13 +53,15 @@ func newExporter(tree *ImmutableTree) (*Exporter, error) {
 	}
 
 	ctx, cancel := context.WithCancel(context.Background())
+	version := tree.version
 	exporter := &Exporter{
-		tree:   tree,
-		ch:     make(chan *ExportNode, exportBufferSize),
-		cancel: cancel,
+		tree:    tree,
+		version: version,
+		ch:      make(chan *ExportNode, exportBufferSize),
+		cancel:  cancel,
 	}
 
-	tree.ndb.incrVersionReaders(tree.version)
+	tree.ndb.incrVersionReaders(version)
 	go exporter.export(ctx)
 
 	return exporter, nil
@@ -109,7 +114,7 @@ func (e *Exporter) Close() {
 	for range e.ch { //nolint:revive
 	} // drain channel
 	if e.tree != nil {
-		e.tree.ndb.decrVersionReaders(e.tree.version)
+		e.tree.ndb.decrVersionReaders(e.version)
 	}
 	e.tree = nil
 }
